@@ -220,6 +220,8 @@ pub struct Sched {
     /// pass — time always advances in reality — up to this many forced steps; only then is it a
     /// deadlock. Forced advances are not choices and cost nothing.
     pub forced_advances_left: u32,
+    /// a harness-owned clock (milliseconds) that moves by the given amount whenever the scheduler takes an ADVANCE step
+    pub harness_clock: Option<(Arc<std::sync::atomic::AtomicU64>, u64)>,
 }
 
 impl Default for Sched {
@@ -240,6 +242,7 @@ impl Sched {
             panicked: None,
             step_counter: Arc::new(std::sync::atomic::AtomicU64::new(0)),
             forced_advances_left: 0,
+            harness_clock: None,
         }
     }
 
@@ -312,6 +315,9 @@ impl Sched {
         if id == ADVANCE {
             assert!(self.advance_left > 0);
             self.advance_left -= 1;
+            if let Some((c, ms)) = &self.harness_clock {
+                c.fetch_add(*ms, Ordering::SeqCst);
+            }
             tokio::time::advance(self.advance_by).await;
             return;
         }
